@@ -6,3 +6,5 @@ From WI Require Import Lib.Base.
 Definition max_depth : Z := 1000%Z.
 (* cmd/decipher/main.go: var Version (default, no -ldflags) *)
 Definition version : bytes := [48; 46; 48; 46; 48]%N.
+(* internal/file/info.go: var MaxReadSize (the value of the running code) *)
+Definition max_read_size : N := 128000000%N.
